@@ -322,6 +322,29 @@ class Parser:
                 self.eat("true")
                 self.eat(")")
                 return ["while", self.block()]
+            if v == "for" and self.peek(1)[1] == "(" and self.peek(2)[1] == "int":
+                # counted loop of naga's workgroup zero-initialisation: for (int x = A; x < N; x++) { body }
+                # (body without `continue`) = { int x = A; while (true) { if (!(x < N)) break; { body } x += 1; } }
+                self.i += 3
+                x = self.ident()
+                self.eat("=")
+                a = self.expr()
+                self.eat(";")
+                c = self.expr()
+                self.eat(";")
+                if self.ident() != x:
+                    raise OutOfFragment("for loop: update of another variable")
+                self.eat("++")
+                self.eat(")")
+                start = self.i
+                body = self.block()
+                if any(t == ("id", "continue") for t in self.t[start:self.i]):
+                    raise OutOfFragment("for loop with continue")
+                if not (c[0] == "bin" and c[1] == "<" and c[2] == ["var", x]):
+                    raise OutOfFragment("for loop: condition is not x < N")
+                return ["block", [["decl", ["s", "int"], x, a],
+                                  ["while", [["if", c, [], [["break"]]], ["block", body],
+                                             ["assign", "+=", ["var", x], ["int", 1]]]]]]
             if v == "switch":
                 self.i += 1
                 self.eat("(")
